@@ -23,6 +23,8 @@ VERIF = scratch.VERIF
 # entries: (obligation regex, crate dir | append:<file>, package, witness file, test filter[, property]); first match wins;
 # an entry with a 6th element applies only when the check runs for that property
 WITNESS = [
+    (r"search_abort::SearchFragR::", "engine_core", "inkayaku_engine_core", "c10_repetition.rs", "witness_c10", "C10"),
+    (r"PerftSlice::", "board", "inkayaku_board", "c01_legal_moves.rs", "witness_c01", "C01"),
     (r"search_horizon::SearchFragB::", "append:engine_core/src/engine/search.rs", "inkayaku_engine_core", "c09_sweep.rs", "verif_witness_c09_interruption", "C09"),
     (r"search_horizon::SearchFragB::", "engine_core", "inkayaku_engine_core", "c10_repetition.rs", "witness_c10", "C10"),
     (r"move_order::", "append:engine_core/src/engine/move_order.rs", "inkayaku_engine_core", "c10_move_order.rs", "verif_witness_move_order"),
